@@ -21,6 +21,7 @@ import (
 	"verif/harness/lib/fakesource"
 	"verif/harness/lib/miniredis"
 	"verif/harness/lib/prng"
+	"verif/harness/lib/rdbgen"
 	"verif/harness/lib/wk"
 )
 
@@ -372,6 +373,54 @@ func runC20e2e(r resIface, idx int, rng *prng.R) {
 	}
 }
 
+// runC20failover: re-discovery at a *restart*. The first handshake and full sync go to the shard's master; while
+// the RDB is still arriving the shard fails over (the old master stays alive as a replica and would still answer
+// PSYNC, a known replica becomes master); one restore fails at the target, so Sync() starts over - and must pick
+// the node that reports master now. Resume-from-breakpoint on/off.
+func runC20failover(r resIface, idx int, rng *prng.R) {
+	cfg := &e2eCfg{TargetDB: -1, SenderCount: 8, SenderSize: 65535, Parallel: 2, Metric: true, Resume: idx%2 == 0}
+	cfg.apply()
+	conf.Options.SourceType = conf.RedisTypeCluster
+	keys := []*rdbgen.KeySpec{{DB: 0, Key: []byte("will-fail-once"), Val: &rdbgen.Value{Kind: "string", Str: []byte("v")}, Enc: "raw"}}
+	rdbBytes := minimalRDB(rng, keys)
+	old, err := fakesource.New(fakesource.Script{RunID: e2eRunID, StartOffset: 10, RDB: rdbBytes, Frag: []int{7}, Gap: 20 * time.Millisecond, ResumeMode: "fullresync"}, e2eSrcPw)
+	if err != nil {
+		r.Inconcl("fakesource: " + err.Error())
+		return
+	}
+	promoted, err := fakesource.New(fakesource.Script{RunID: "bbbbbbbbbbbbbbbbbbbbbbbbbbbbbbbbbbbbbbbb", StartOffset: 10, RDB: rdbBytes}, e2eSrcPw)
+	if err != nil {
+		r.Inconcl("fakesource: " + err.Error())
+		return
+	}
+	promoted.SetRole("slave")
+	srv := miniredis.NewServer()
+	srv.Password = e2eTgtPw
+	srv.Faults = append(srv.Faults, &miniredis.Fault{Cmd: "restore", Key: "will-fail-once", Nth: 1, Reply: miniredis.ErrReply("ERR injected failure")})
+	tcp, _ := srv.ListenTCP()
+	e2eIDs.Lock()
+	e2eIDs.n++
+	id := e2eIDs.n
+	e2eIDs.Unlock()
+	node := &slot.SyncNode{Id: id, Source: old.Addr, SourcePassword: e2eSrcPw, Target: []string{tcp.Addr}, TargetPassword: e2eTgtPw, SlotLeftBoundary: -1, SlotRightBoundary: -1, Slaves: []string{promoted.Addr}}
+	ds := dbSync.NewDbSyncer(node, 9320, semaphore.NewWeighted(4))
+	go ds.Sync()
+	// the fail-over happens as soon as the first PSYNC has reached the old master (its RDB takes a while to arrive)
+	if !waitUntil(10*time.Second, func() bool { _, ps := old.Snapshot(); return len(ps) >= 1 }) {
+		r.Inconcl("fail-over scenario: the syncer never sent its first PSYNC")
+		return
+	}
+	old.SetRole("slave")
+	promoted.SetRole("master")
+	followed := waitUntil(15*time.Second, func() bool { _, ps := promoted.Snapshot(); return len(ps) >= 1 })
+	_, psOld := old.Snapshot()
+	r.Case(fmt.Sprintf("e2e-failover-at-restart|resume=%v", cfg.Resume))
+	r.Count("e2e_failover_runs", 1)
+	if !followed {
+		r.Violation(fmt.Sprintf("C20|outcome=restart-keeps-the-demoted-node|scenario=e2e-failover|resume=%v", cfg.Resume), fmt.Sprintf("after a failed full sync the syncer started over while the old master reports role:slave and a known replica reports role:master: the new master got no PSYNC within 15 s, the demoted node got %d", len(psOld)), map[string]interface{}{"resume": cfg.Resume})
+	}
+}
+
 func c20casesChild(raw json.RawMessage, scratch string) {
 	a := wk.ParseBatchArg(raw, nil)
 	log.SetLevel(log.LEVEL_NONE)
@@ -383,6 +432,11 @@ func c20casesChild(raw json.RawMessage, scratch string) {
 	sampled := false
 	if a.Start >= 9000000 {
 		for i := a.Start; i < a.End; i++ {
+			if i%4 >= 2 {
+				wk.ChildCase(i, map[string]interface{}{"index": i, "scenario": "e2e-failover-at-restart", "resume": i%2 == 0})
+				runC20failover(r, i, base.At(uint64(i)))
+				continue
+			}
 			wk.ChildCase(i, map[string]interface{}{"index": i, "scenario": "e2e-topology"})
 			runC20e2e(r, i, base.At(uint64(i)))
 		}
@@ -424,12 +478,14 @@ func c20(c *wk.Ctx) {
 	parts := c.N(4, 16)
 	wk.Parallel(parts+1, 5, func(p int) {
 		if p == parts {
-			wk.RunBatch(c, "c20cases", 9000000, 9000000+c.N(4, 16), nil, 20*time.Minute, onDeath)
+			wk.RunBatch(c, "c20cases", 9000000, 9000000+c.N(8, 32), nil, 20*time.Minute, onDeath)
 			return
 		}
 		wk.RunBatch(c, "c20cases", n*p/parts, n*(p+1)/parts, nil, 20*time.Minute, onDeath)
 	})
+	r.Floor("e2e_failover_runs", 2)
 	r.Floor("e2e_topology_runs", 4)
+	r.Floor("e2e_failover_runs", 3)
 	r.Floor("cases", 100)
 	r.Floor("no_master_cases", 8)
 	r.Assume("a probe round = one connection per node (the supervisor probes every known node once per round); silent nodes (accept, never answer) are not generated: the connection has no read timeout and the statement's fault list does not include them")
